@@ -1,14 +1,19 @@
 """C17 -- pickle, JSON and pandas conversion preserve the table.
 
 Cases start from a table of the pool a seeded random operation history leaves
-behind (reordered, selected, resized, aliased columns, populated caches):
+behind (reordered, selected, resized, aliased columns, populated caches); a third of them get one or two
+SeriesColumns (depths 1..50, NaN/inf samples, both defaultnan settings) and are then reordered / selected /
+resized / emptied again, so that series state is reached through histories too.
   pickle : pickle.dumps/loads protocols 0-5 and io.writepickle/readpickle; the restored object graph is dumped and
-           judged in Coq (inv_b, same table, fresh family); then the same follow-up operations run on the original
-           and on the restored object (world.Runner.apply) and every changed table is dumped pairwise;
-  json   : to_json/from_json round trip, the parsed document vs the model's, and text (in)equality after a
-           single-cell / name / row-order perturbation of a copy;
-  pandas : DataFrame / Series content row by row;
-  series : tables with a SeriesColumn -- `ltable` has no series kind, so these are compared on the Python side only.
+           judged in Coq (invariant, same table, same series, fresh family); unrelated and related "twin" tables are
+           created BEFORE and IMMEDIATELY AFTER the restore (fresh DataMatrix, a second unpickle, from_json, a copy);
+           then the same follow-up operations (incl. merging / indexing / assigning / concatenating ACROSS the twins)
+           run on the original and on the restored side (world.Runner.apply) and every changed table is dumped
+           pairwise; the family partition of the two sides must be isomorphic and all root families distinct;
+           the module's id counter is read around every restore / construction and compared with the id kernels;
+  json   : to_json/from_json round trip, the parsed document vs the model's, text (in)equality after a
+           single-cell / series-sample / depth / name / row-order perturbation of a copy, relatedness probes;
+  pandas : DataFrame / Series content row by row; a series cell must come back as its row of numbers.
 """
 import json
 import math
@@ -29,15 +34,31 @@ import world
 FOLLOW_WEIGHTS = {
     'new': 0, 'setcolkind': 2, 'setcol': 4, 'setcolfromcol': 1, 'setcell': 10, 'select': 10, 'merge': 10, 'slice': 2,
     'getrows': 2, 'sort': 2, 'shuffle': 1, 'sample': 1, 'setlength': 10, 'delrows': 2, 'delcol': 1, 'rename': 1,
-    'concat': 2, 'setsorted': 1,
+    'concat': 2, 'setsorted': 1, 'setcolfromslice': 1,
 }
+POST_WEIGHTS = {'select': 3, 'slice': 3, 'getrows': 3, 'sort': 4, 'shuffle': 2, 'setlength': 3, 'sample': 1, 'delrows': 1}
 MODES = ['p0', 'p1', 'p2', 'p3', 'p4', 'p5', 'file', 'file0', 'file2', 'file5']
+TWINS_BEFORE = ['new', 'unpickle', 'json']
+TWINS_AFTER = ['new', 'new', 'unpickle', 'json', 'copy']
+SER_VALS = [0.0, 1.0, -2.5, float('nan'), 1e10, 0.5, float('inf'), float('-inf'), -0.0, 1e-300, 3.25]
+DEPTHS = [1, 2, 3, 4, 5, 5, 6, 8, 8, 50]
 
 
 def _filedir():
     d = os.path.join(fw.WORK, 'c17-files-%d' % os.getpid())
     os.makedirs(d, exist_ok=True)
     return d
+
+
+def _M():
+    """the module that holds the global family-id counter `_id`"""
+    import datamatrix._datamatrix._datamatrix as m
+    return m
+
+
+def is_series(col):
+    from datamatrix._datamatrix._seriescolumn import _SeriesColumn
+    return isinstance(col, _SeriesColumn)
 
 
 def build_pool(ops_list, seed):
@@ -81,6 +102,46 @@ def decorate(dm, level):
             pass
 
 
+def foreign(dm):
+    """The table as it comes out of a pickle file of another origin: a file written by the release before the
+    repair of DataMatrix._set_col, in which `dm.lab = dm.a @ str` / `dm.hlf = dm.a / 2` inserted the derived
+    column by reference, so that a MixedColumn holds numeric-looking text ('7', '2.5', 'nan') and whole-number
+    floats (5.0).  No assignment can store such cells any more, but files holding them exist, reading them is
+    public API, and once they are in a table every round trip has to keep them.  The file is emulated: the cells
+    are written into a scratch copy that is pickled and thrown away; the case's table is what pickle.loads returns."""
+    scratch = dm[:]
+    src = next((c for c in scratch._cols.values() if world.kind_of(c)), None)
+    if src is not None:
+        cells = [x.item() if isinstance(x, np.generic) else x for x in src]
+        for name, seq in (('lab', [x if isinstance(x, str) else str(x) for x in cells]),
+                          ('hlf', [float(x) / 2 if isinstance(x, (int, float)) and not isinstance(x, bool) else x
+                                   for x in cells])):
+            scratch[name] = world.MixedColumn
+            scratch._cols[name]._seq = seq           # what the earlier release stored
+    return pickle.loads(pickle.dumps(scratch, 2))
+
+
+def add_series(dm, sp):
+    """dm[name] = SeriesColumn(depth, defaultnan) with every row written (seeded)."""
+    from datamatrix import SeriesColumn
+    rng = random.Random(sp['fseed'])
+    d = sp['depth']
+    dm[sp['name']] = SeriesColumn(depth=d, defaultnan=bool(sp.get('dnan', True)))
+    col = dm[sp['name']]
+    style = sp.get('style', 'mixed')
+    for i in range(len(dm)):
+        if style == 'ramp':
+            row = [(i + 1) * j + 0.25 for j in range(d)]
+        elif style == 'nan':
+            row = [float('nan')] * d
+        else:
+            row = [rng.choice(SER_VALS) for _ in range(d)]
+        col[i] = row
+    if style == 'ramp' and len(dm) > 1:
+        col[1, 0] = float('nan')
+        col[0, d - 1] = float('inf')
+
+
 def do_pickle(dm, mode, tag=0):
     from datamatrix import io
     if mode.startswith('p'):
@@ -93,7 +154,10 @@ def do_pickle(dm, mode, tag=0):
     try:
         return io.readpickle(path)
     finally:
-        shutil.rmtree(os.path.dirname(path), ignore_errors=True)
+        try:
+            os.remove(path)         # the directory goes away with the case (rerun)
+        except OSError:
+            pass
 
 
 def subst(o, pairs, side):
@@ -103,7 +167,19 @@ def subst(o, pairs, side):
             o[k] = pairs[o[k]][side]
     if 'addr' in o and o['addr'].get('k') == 'sel':
         o['addr']['t2'] = pairs[o['addr']['t2']][side]
+    if isinstance(o.get('rhs'), dict) and o['rhs'].get('k') == 'col':        # a live column object as the value
+        o['rhs']['t2'] = pairs[o['rhs']['t2']][side]
     return o
+
+
+def refs_ok(o, npairs):
+    """every table the operation names is one of the pairs"""
+    l = [o[k] for k in ('t', 't2') if k in o]
+    if 'addr' in o and o['addr'].get('k') == 'sel':
+        l.append(o['addr']['t2'])
+    if isinstance(o.get('rhs'), dict) and o['rhs'].get('k') == 'col':
+        l.append(o['rhs']['t2'])
+    return all(isinstance(i, int) and 0 <= i < npairs for i in l)
 
 
 class _View:
@@ -113,17 +189,54 @@ class _View:
 
 
 def gen_follow(rng, r, pairs, first):
-    if first and rng.random() < 0.6:
+    if first and rng.random() < 0.5:
         n = len(r.pool[pairs[0][0]])
         return {'op': 'setlength', 't': 0, 'n': n + rng.choice([1, 2, 3])}
+    if len(pairs) > 1 and rng.random() < 0.4:
+        # relatedness: use a twin (unrelated table, second restore, copy) together with the table
+        j = rng.randrange(1, len(pairs))
+        dm = r.pool[pairs[0][0]]
+        cols = [(nm, kd) for nm, kd in histgen.col_kinds(dm) if kd]
+        c = rng.random()
+        if c < 0.3 or not cols:
+            return {'op': 'merge', 'mop': rng.choice(['MAnd', 'MOr', 'MXor']), 't': 0, 't2': j}
+        if c < 0.45:
+            return {'op': 'merge', 'mop': rng.choice(['MAnd', 'MOr', 'MXor']), 't': j, 't2': 0}
+        if c < 0.8:
+            name, kind = rng.choice(cols)
+            return {'op': 'setcell', 't': 0, 'name': name, 'addr': {'k': 'sel', 't2': j},
+                    'rhs': {'k': 'scalar', 'v': pyobs.enc(histgen.pick_value(rng, kind, 0))}}
+        if c < 0.9:
+            other = r.pool[pairs[j][0]]
+            oc = [(nm, kd) for nm, kd in histgen.col_kinds(other) if kd]
+            if oc:
+                name, kind = rng.choice(oc)
+                return {'op': 'setcell', 't': j, 'name': name, 'addr': {'k': 'sel', 't2': 0},
+                        'rhs': {'k': 'scalar', 'v': pyobs.enc(histgen.pick_value(rng, kind, 0))}}
+        return {'op': 'concat', 't': 0, 't2': j}
     if rng.random() < 0.25:
         return {'op': 'merge', 'mop': rng.choice(['MAnd', 'MOr', 'MXor']), 't': 0, 't2': 0}
-    o = histgen.gen_op(rng, _View(r, pairs), FOLLOW_WEIGHTS, bad_rate=0.04, max_pool=6, max_rows=9)
+    o = histgen.gen_op(rng, _View(r, pairs), FOLLOW_WEIGHTS, bad_rate=0.04, max_pool=8, max_rows=9)
     if o['op'] == 'new':
         return {'op': 'setlength', 't': 0, 'n': len(r.pool[pairs[0][0]]) + 1}
     return o
 
 
+class _One:
+    def __init__(self, dm):
+        self.pool = [dm]
+
+
+def gen_post(rng, dm):
+    o = histgen.gen_op(rng, _One(dm), POST_WEIGHTS, bad_rate=0.0, max_pool=99, max_rows=9)
+    if o['op'] == 'new':
+        o = {'op': 'slice', 't': 0, 'a': None, 'b': None}
+    if rng.random() < 0.06:
+        o = {'op': 'slice', 't': 0, 'a': None, 'b': 0}          # the empty table
+    return o
+
+
+# ------------------------------------------------------------------ literals
 def pcell(x):
     if x is None:
         return 'PMiss'
@@ -147,6 +260,68 @@ def pcell(x):
     return 'POdd'
 
 
+def xpcell(x):
+    """a cell read back from a DataFrame / Series: a 1-D float array is a row of numbers"""
+    if isinstance(x, np.ndarray):
+        if x.ndim == 1 and x.dtype.kind == 'f':
+            return '(XRow %s)' % L.lst(L.fl(float(v)) for v in x)
+        return '(XCell POdd)'
+    return '(XCell %s)' % pcell(x)
+
+
+def rows_lit(seq):
+    return L.lst(L.lst(L.fl(float(v)) for v in row) for row in seq)
+
+
+def dump_x(r, dm, problems):
+    """the object graph of a DataMatrix as an `xtable` (Model/XTable.v): like world.Runner.dump_table, with
+    SeriesColumn objects"""
+    rid, _ids = world.index_coq(dm._rowid, problems)
+    objs, names = [], []
+    for name, col in dm._cols.items():
+        for j, o in enumerate(objs):
+            if o is col:
+                names.append((name, j))
+                break
+        else:
+            objs.append(col)
+            names.append((name, len(objs) - 1))
+    cols = []
+    for col in objs:
+        if is_series(col):
+            seq = col._seq
+            ok = isinstance(seq, np.ndarray) and seq.ndim == 2 and seq.dtype.kind == 'f'
+            if not ok:
+                problems.append('SeriesColumn._seq is %s' % (getattr(seq, 'shape', None) and 'an array of shape %r dtype %s' % (
+                    seq.shape, seq.dtype) or type(seq).__name__))
+            elif seq.shape[1] != col._depth:
+                problems.append('SeriesColumn._seq has shape %r but _depth is %r' % (seq.shape, col._depth))
+            if not isinstance(col._rowid, np.ndarray):
+                problems.append('SeriesColumn._rowid is a %s' % type(col._rowid).__name__)
+            if not isinstance(col._depth, (int, np.integer)) or isinstance(col._depth, bool) or col._depth < 0:
+                problems.append('SeriesColumn._depth is %r' % (col._depth,))
+            cols.append('(XS {| sc_depth := %s; sc_dnan := %s; sc_rowid := %s; sc_cells := %s; sc_owner := %s; sc_tc := %s |})' % (
+                L.nat(int(col._depth) if isinstance(col._depth, (int, np.integer)) and 0 <= col._depth < 5000 else 0),
+                L.boolean(bool(col.defaultnan)), L.lst(L.N(int(x)) for x in col._rowid),
+                rows_lit(seq) if ok else '[]', L.boolean(col._datamatrix is dm), L.boolean(col._typechecking is True)))
+            continue
+        kind = world.kind_of(col)
+        if kind is None:
+            problems.append('unsupported column type %s' % type(col).__name__)
+            kind = 'KMixed'
+        crid, _ = world.index_coq(col._rowid, problems)
+        cols.append('(XP {| lc_kind := %s; lc_rowid := %s; lc_cells := %s; lc_owner := %s; lc_tc := %s |})' % (
+            kind, crid, world.cells_coq(col, kind, problems), L.boolean(col._datamatrix is dm),
+            L.boolean(col._typechecking is True)))
+    dk = {world.MixedColumn: 'KMixed', world.FloatColumn: 'KFloat', world.IntColumn: 'KInt'}.get(dm._default_col_type)
+    if dk is None:
+        problems.append('default column type %r' % (dm._default_col_type,))
+        dk = 'KMixed'
+    return ('{| x_fam := %s; x_rowid := %s; x_names := %s; x_cols := %s; x_sorted := %s; x_dflt := %s |}' % (
+        L.nat(r.fam(dm)), rid, L.lst('(%s, %s)' % (L.string(n), L.nat(j)) for n, j in names),
+        L.lst(cols), L.boolean(bool(dm._sorted)), dk))
+
+
 def jval(x):
     """a JSON scalar as parsed by the stdlib json module -> val"""
     lit = pyobs.val(x)
@@ -154,7 +329,7 @@ def jval(x):
 
 
 def doc_lit(text):
-    """Parse the implementation's JSON text independently (stdlib json) into the Coq jdoc literal."""
+    """Parse the implementation's JSON text independently (stdlib json) into the Coq xjdoc literal."""
     d = json.loads(text)
     if list(d.keys()) != ['rowid', 'columns']:
         return None
@@ -162,18 +337,57 @@ def doc_lit(text):
     for name, pair in d['columns'].items():
         ty, seq = pair
         if isinstance(seq, dict):
-            if ty == 'FloatColumn':
-                cells = [pyobs.val(float(v)) for v in seq['__ndarray__']]
+            arr, shape = seq['__ndarray__'], seq.get('shape')
+            if shape is not None and len(shape) == 2:
+                pay = '(JArr %s %s %s)' % (L.nat(shape[0]), L.nat(shape[1]), rows_lit(arr))
+            elif ty == 'FloatColumn':
+                pay = '(JList %s)' % L.lst(pyobs.val(float(v)) for v in arr)
             else:
-                cells = [jval(v) for v in seq['__ndarray__']]
+                pay = '(JList %s)' % L.lst(jval(v) for v in arr)
         else:
-            cells = [jval(v) for v in seq]
-        cols.append('(%s, (%s, %s))' % (L.string(name), L.string(ty), L.lst(cells)))
+            pay = '(JList %s)' % L.lst(jval(v) for v in seq)
+        cols.append('(%s, (%s, %s))' % (L.string(name), L.string(ty), pay))
     return '(%s, %s)' % (L.lst(L.N(int(x)) for x in d['rowid']), L.lst(cols))
 
 
 def strs(l):
     return L.lst(L.string(s) for s in l)
+
+
+def nats(l):
+    return L.lst(L.nat(x) for x in l)
+
+
+# ------------------------------------------------------------------ relatedness, observed on the Python side
+def rel_obs(A, X):
+    """what happens when X is used together with A (nothing here changes A or X when it is refused)"""
+    out = []
+    name = next(iter(A._cols), None)
+    for f in (lambda: bool(A == X), lambda: bool(A != X), lambda: len(A | X), lambda: len(X & A), lambda: len(A ^ X),
+              lambda: len(A[name][X]) if name is not None else 'no column'):
+        try:
+            out.append(f())
+        except Exception as e:      # noqa: BLE001
+            out.append('exn ' + pyobs.exn_name(e))
+    return out
+
+
+def own_obs(A):
+    """merging with / indexing by the table's own selections"""
+    n = len(A)
+    out = []
+    name = next(iter(A._cols), None)
+    try:
+        S, T = A[:(n + 1) // 2], A[n // 3:]
+        for f in (lambda: len(A | S), lambda: len(S & T), lambda: len(S ^ T), lambda: bool(S == A), lambda: bool(S != T),
+                  lambda: len(A[name][S]) if name is not None else 'no column'):
+            try:
+                out.append(f())
+            except Exception as e:      # noqa: BLE001
+                out.append('exn ' + pyobs.exn_name(e))
+    except Exception as e:      # noqa: BLE001
+        out.append('slicing raised ' + pyobs.exn_name(e))
+    return out
 
 
 class C17:
@@ -187,76 +401,227 @@ class C17:
     exhaustive = False
     rule = ('every case takes one table of the pool left by a seeded random operation history (histgen: 8-18 steps '
             'quick, 8-30 thorough; reordered, selected, resized, aliased, unsorted-flag tables, caches warmed at level '
-            '0-2) and (pickle) round-trips it through pickle protocols 0-5 or io.writepickle/readpickle, dumps the '
-            'restored object graph, then applies 1-4 follow-up operations (60 % start by growing; selection, merging '
-            'with itself/derived tables, cell and column assignment, resizing, sorting, ...) to the original and to '
-            'the restored object and dumps every changed table pairwise; (json) round-trips it through '
-            'to_json/from_json, parses the text independently, and compares the text with that of a copy perturbed in '
-            'one cell / one name / the row order / not at all; (pandas) reads the DataFrame and each Series back row by '
-            'row; (series) adds a SeriesColumn and compares pickle/JSON round trips on the Python side. A case is '
-            'non-trivial when the table has rows and columns (pickle: and at least one follow-up operation succeeded; '
-            'json text: the texts differ). Distinct by (history, seed, table, mode, follow-ups).')
+            '0-2); in about 40 % of the cases one or two SeriesColumns (depth 1,2,3,4,5,6,8 or 50, samples incl. NaN, '
+            '+-inf, -0.0, both defaultnan settings) are added and the table is then sorted / shuffled / selected / '
+            'sliced (also to zero rows) / resized 0-3 more times; 15-35 % of the tables are then replaced by what '
+            'pickle.loads returns for an (emulated) file of the release before the _set_col repair: the same table plus '
+            'MixedColumns holding numeric-looking text and whole-number floats (cells no assignment can store any '
+            'more, but which every round trip must keep). (pickle) unrelated twin tables are created before '
+            'the restore; the table is round-tripped through pickle protocols 0-5 or io.writepickle/readpickle; '
+            'IMMEDIATELY afterwards further twins are created (fresh DataMatrix of the same shape, a second and third '
+            'unpickle, from_json, a copy of original resp. restored); the restored object graph is dumped; then 1-4 '
+            'follow-up operations (50 % start by growing; selection, merging with itself / derived tables / the '
+            'twins in both operand orders, cell assignment through own selections and through twins, concatenation '
+            'with twins, column assignment, resizing, sorting, ...) are applied to the original and to the restored '
+            'side and every changed table is dumped pairwise; ==, !=, |, &, ^ and column[table] against every twin are '
+            'compared on the Python side; the module id counter is read around every restore and construction. '
+            '(json) to_json/from_json round trip, the text parsed independently, the text of a copy perturbed in one '
+            'cell / one series sample / the series depth / one name / the row order / not at all; a fresh table and a '
+            'second from_json right after; relatedness probes. (pandas) DataFrame and each Series read back row by '
+            'row, series cells as rows of numbers. A case is non-trivial when the table has rows and columns '
+            '(pickle: and at least one follow-up operation succeeded; json text: the texts differ). Distinct by '
+            '(history, seed, table, series, post-operations, mode, twins, follow-ups).')
     trusted_base = [
         'Coq 8.16.1 kernel (coqc; vm_compute for evaluating cases; no native_compute)',
-        'translator /verif/translate/gen_persist.py (ast -> Gen/KPersist.v) incl. its pinned statement lists',
-        'harness/c17.py, harness/world.py (runner, object-graph dumper, probes), harness/histgen.py, Run/SC17.v, Run/RC17.v',
-        'Model/LTable.v inv_b/abs/table_eqb and Spec/Persist.v (what "preserved" means)',
+        'translator /verif/translate/gen_persist.py (ast -> Gen/KPersist.v) incl. its pinned statement lists and the '
+        'symbolic execution of the `_id` statements in source order',
+        'harness/c17.py (incl. the xtable dumper), harness/world.py (runner, probes), harness/histgen.py, Run/SC17.v, Run/RC17.v',
+        'Model/LTable.v inv_b/abs/table_eqb, Model/XTable.v (shadow, xinv_b, xabs) and Spec/Persist.v (what "preserved" means)',
         'modelled, not verified: pickle is the identity on the tree of __getstate__ results and keeps object sharing; '
         'dict.update/sorted/str.__contains__; json_tricks (here: /verif/shim) satisfies loads(dumps(x)) = x on '
-        'documents of ids, names, type names and cells; pandas.DataFrame/Series constructors are observed only',
+        'documents of ids, names, type names, cells and 2-D arrays with their shape; pandas.DataFrame/Series '
+        'constructors are observed only; the module-level counter `_id` is read with getattr',
     ]
     assumptions = [
-        'Series columns are outside `ltable`: their round trips are compared on the Python side only (pyfail)',
-        'the "behaves as on the original" clause is proved as: same abstract table + representation invariant; '
-        'for concrete follow-up operations it is checked by running them on both objects',
+        'a SeriesColumn is modelled as a NumericColumn object (bare row-id array, owner, type-checking flag) with '
+        '_depth, defaultnan and a 2-D _seq of exact binary64 values; NaN payload bits are not distinguished',
+        'the "behaves as on the original" clause is proved as: same abstract table + representation invariant + a family '
+        'that no other construction or restore ever gets (any interleaving); for concrete follow-up operations it is '
+        'checked by running them on both objects',
         'json: dumps/loads are Section variables with loads (dumps x) = x; the real text is tied by parsing it with the '
         'stdlib json module and comparing the document with the model',
         'pandas: integers beyond 2**53 in a column that also holds None are outside the generated inputs (pandas '
         'infers float64 and rounds them; reported as a defect candidate)',
     ]
 
-    # ------------------------------------------------------------ runners
-    def run_pickle(self, inp):
+    # ------------------------------------------------------------ common set-up
+    def setup(self, inp):
+        """history -> pool; table t gets its series columns and the post-operations; returns the runner, the
+        index of the final table, the table, the (now concrete) post-operations."""
         r = build_pool(inp['ops'], inp['seed'])
-        t = inp['t']
-        dm = r.pool[t]
+        cur = inp['t']
+        dm = r.pool[cur]
         decorate(dm, inp.get('deco', 0))
+        for sp in inp.get('series') or []:
+            add_series(dm, sp)
+        post = inp.get('post')
+        gen = post is None
+        post = [] if gen else post
+        prng = random.Random(inp.get('pseed', 0))
+        k = 0
+        while (gen and k < inp.get('npost', 0)) or (not gen and k < len(post)):
+            if gen:
+                o = gen_post(prng, r.pool[cur])
+                post.append(o)
+            else:
+                o = post[k]
+            k += 1
+            o2 = dict(o, t=cur)
+            _out, new = r.apply(o2, seed=inp['seed'] * 13 + k)
+            if 'perm' in o2:
+                o['perm'] = o2['perm']
+            if new:
+                cur = len(r.pool) - 1
+        if inp.get('foreign'):
+            r.pool.append(foreign(r.pool[cur]))
+            cur = len(r.pool) - 1
+        dm = r.pool[cur]
         warm(dm, inp.get('warm', 0))
-        used = sorted(set(r.fam(x) for x in r.pool))
-        problems = []
+        for q in r.pool:
+            r.fam(q)
+        return r, cur, dm, post
+
+    def _live(self, dm):
         live = {'dm': sorted(dm.__dict__), 'index': sorted(dm._rowid.__dict__)}
         for col in dm._cols.values():
-            kd = world.kind_of(col)
+            kd = 'KSer' if is_series(col) else world.kind_of(col)
             if kd:
                 live[kd] = sorted(col.__dict__)
-        dm_keys = list(dm.__getstate__()[0])
-        index_keys = list(dm._rowid.__getstate__()[0])
         objs = []
         for col in dm._cols.values():
             if not any(col is o for o in objs):
                 objs.append(col)
-        col_keys = [list(c.__getstate__()[0]) for c in objs]
+        return live, list(dm.__getstate__()[0]), list(dm._rowid.__getstate__()[0]), [list(c.__getstate__()[0]) for c in objs]
+
+    def _fresh_like(self, dm, idchecks):
+        """DataMatrix(length=len(dm)): nothing else, so that it takes the very next counter value"""
+        M = _M()
+        c0 = M._id
+        x = world.DataMatrix(length=len(dm))
+        idchecks.append('m_ids_new %s %s %s' % (L.z(c0), L.z(x._id), L.z(M._id)))
+        return x
+
+    def _mirror(self, x, dm):
+        from datamatrix import SeriesColumn
+        for name, col in dm._cols.items():
+            if is_series(col):
+                x[name] = SeriesColumn(depth=col.depth)
+            elif world.kind_of(col):
+                x[name] = type(col)
+
+    def _unpickle(self, dm, mode, idchecks, tag=0):
+        M = _M()
+        c0 = M._id
+        rest = do_pickle(dm, mode, tag)
+        if isinstance(rest, world.DataMatrix):
+            idchecks.append('m_ids_restore %s %s %s' % (L.z(c0), L.z(rest._id), L.z(M._id)))
+        return rest
+
+    def _twin(self, kind, dm, rest, mode, idchecks):
+        """(table for the original side, table for the restored side, are they roots?).  The one for the restored
+        side is created FIRST: it is the construction that follows the restore."""
+        from datamatrix import convert as cnv
+        if kind == 'new':
+            b = self._fresh_like(dm, idchecks)
+            a = self._fresh_like(dm, idchecks)
+            self._mirror(b, dm)
+            self._mirror(a, dm)
+            return a, b, [b, a]
+        if kind == 'unpickle':
+            b = self._unpickle(dm, mode, idchecks, 2)
+            a = self._unpickle(dm, mode, idchecks, 3)
+            return a, b, [b, a]
+        if kind == 'json':
+            b = cnv.from_json(cnv.to_json(dm if rest is None else rest))
+            a = cnv.from_json(cnv.to_json(dm))
+            return a, b, [b, a]
+        if kind == 'copy':
+            b = (dm if rest is None else rest)[:]
+            a = dm[:]
+            return a, b, []
+        raise AssertionError(kind)
+
+    # ------------------------------------------------------------ runners
+    def run_pickle(self, inp):
+        r, t, dm, post = self.setup(inp)
+        mode = inp['mode']
+        used = sorted(set(r.fam(x) for x in r.pool))
+        problems = []
+        idchecks = ['m_id_start %s' % L.z(_M()._id)]
+        live, dm_keys, index_keys, col_keys = self._live(dm)
         orig_problems = []
-        orig_lit = r.dump_table(dm, orig_problems)     # malformations of the original are not persistence failures
+        orig_lit = dump_x(r, dm, orig_problems)     # malformations of the original are not persistence failures
         pyfail = None
+        pairs = [None]
+        roots = []
+        twin_kinds = []
+
+        def add_twin(kind, rest):
+            a, b, rt = self._twin(kind, dm, rest, mode, idchecks)
+            for q in rt:
+                if not isinstance(q, world.DataMatrix):
+                    raise TypeError('a %s twin is a %s' % (kind, type(q).__name__))
+                roots.append(r.fam(q))
+            r.pool.append(a)
+            r.pool.append(b)
+            pairs.append((len(r.pool) - 2, len(r.pool) - 1))
+            twin_kinds.append(kind)
         try:
-            rest = do_pickle(dm, inp['mode'])
+            for kind in inp.get('before') or []:
+                if kind != 'copy':
+                    add_twin(kind, None)
+            rest = self._unpickle(dm, mode, idchecks)
         except Exception as e:      # noqa: BLE001
-            return self._fail_case(inp, 'round trip raised %r' % (e,), ['pickle', inp['mode']])
+            return self._fail_case(inp, 'round trip raised %r' % (e,), ['pickle', mode])
         self._stage = 'restored'
-        if r.dump_table(dm, []) != orig_lit:
-            pyfail = 'pickling changed the original object'
         if not isinstance(rest, world.DataMatrix):
-            return self._fail_case(inp, 'round trip returned a %s' % type(rest).__name__, ['pickle', inp['mode']])
-        rest_lit = r.dump_table(rest, problems)
+            return self._fail_case(inp, 'round trip returned a %s' % type(rest).__name__, ['pickle', mode])
+        roots.append(r.fam(rest))
+        r.pool.append(rest)
+        pairs[0] = (t, len(r.pool) - 1)
+        for kind in inp.get('after') or []:
+            add_twin(kind, rest)                    # the first of these follows the restore immediately
+        if dump_x(r, dm, []) != orig_lit:
+            pyfail = 'pickling changed the original object'
+        rest_lit = dump_x(r, rest, problems)
         r.probes(rest, problems)
         r.probes(dm, orig_problems)
         problems[:] = [p for p in problems if p not in orig_problems]
-        r.pool.append(rest)
-        pairs = [(t, len(r.pool) - 1)]
         last = {0: (orig_lit, rest_lit)}
         follow_lits = []
         outcomes = []
+
+        def dump_pairs(label, emit=True):
+            for pi, (a, b) in enumerate(pairs):
+                pr, pa = [], []
+                la, lb = dump_x(r, r.pool[a], pa), dump_x(r, r.pool[b], pr)
+                if last.get(pi) != (la, lb):
+                    last[pi] = (la, lb)
+                    if emit:
+                        follow_lits.append('(%s, %s)' % (la, lb))
+                    elif la.split('x_rowid', 1)[1] != lb.split('x_rowid', 1)[1]:
+                        problems.append('twin %d: the two tables of the pair differ from the start' % pi)
+                    r.probes(r.pool[b], pr)
+                    r.probes(r.pool[a], pa)
+                pr = [p for p in pr if p not in pa]
+                problems.extend('%s: %s' % (label, p) for p in pr)
+
+        def rel_check(label, own=True):
+            A0, B0 = r.pool[pairs[0][0]], r.pool[pairs[0][1]]
+            for j in range(1, len(pairs)):
+                oa, ob = rel_obs(A0, r.pool[pairs[j][0]]), rel_obs(B0, r.pool[pairs[j][1]])
+                if oa != ob:
+                    return '%s: using twin %d (%s) with the original gives %r, with the restored table %r' % (
+                        label, j, twin_kinds[j - 1] if j - 1 < len(twin_kinds) else 'derived', oa, ob)
+            if own:
+                oa, ob = own_obs(A0), own_obs(B0)
+                if oa != ob:
+                    return '%s: own selections of the original give %r, of the restored table %r' % (label, oa, ob)
+            return None
+        # the twins as they are created are only compared textually (Python side); they are dumped for Coq when an
+        # operation changes them; their families go to fams_case in any case
+        dump_pairs('after the restore', emit=False)
+        pyfail = pyfail or rel_check('after the restore', own=inp.get('fseed', 0) % 2 == 0)
         frng = random.Random(inp.get('fseed', 0))
         follow = inp.get('follow')
         gen = follow is None
@@ -271,8 +636,7 @@ class C17:
             else:
                 o = follow[k]
             k += 1
-            if any(key in o and o[key] >= len(pairs) for key in ('t', 't2')) or (
-                    'addr' in o and o['addr'].get('k') == 'sel' and o['addr']['t2'] >= len(pairs)):
+            if not refs_ok(o, len(pairs)):
                 outcomes.append('skipped')
                 continue
             oa, ob = subst(o, pairs, 0), subst(o, pairs, 1)
@@ -291,42 +655,46 @@ class C17:
                 pairs.append((ia, ib))
             elif new_a or new_b:
                 del r.pool[n0:]
-            for pi, (a, b) in enumerate(pairs):
-                pr, pa = [], []
-                la, lb = r.dump_table(r.pool[a], pa), r.dump_table(r.pool[b], pr)
-                if last.get(pi) != (la, lb):
-                    last[pi] = (la, lb)
-                    follow_lits.append('(%s, %s)' % (la, lb))
-                    r.probes(r.pool[b], pr)
-                    r.probes(r.pool[a], pa)
-                pr = [p for p in pr if p not in pa]
-                problems.extend('after follow-up %d (%s): %s' % (k, o['op'], p) for p in pr)
+            dump_pairs('after follow-up %d (%s)' % (k, o['op']))
+        if k:
+            pyfail = pyfail or rel_check('after the follow-up operations', own=False)
         if problems and not pyfail:
             pyfail = 'python-side probes: ' + '; '.join(problems[:3])
         fl = L.lst(follow_lits)
-        oracle = ('(pickle_case %s %s %s %s && follow_fams (%s, %s) %s)' % (
-            nats(used), orig_lit, rest_lit, fl, orig_lit, rest_lit, fl))
-        model = '(attrs_ok %s %s %s %s %s && keys_ok %s %s %s %s && m_pickle %s %s)' % (
+        fam_pairs = L.lst('(%s, %s)' % (L.nat(r.fam(r.pool[a])), L.nat(r.fam(r.pool[b]))) for a, b in pairs[1:])
+        oracle = ('(xpickle_case %s %s %s %s && fams_case %s %s (%s, %s) (%s ++ xfams %s))' % (
+            nats(used), orig_lit, rest_lit, fl, nats(used), nats(roots), L.nat(r.fam(dm)), L.nat(r.fam(rest)), fam_pairs, fl))
+        model = '(xattrs_ok %s %s %s %s %s %s && xkeys_ok %s %s %s %s && m_xpickle %s %s && %s)' % (
             strs(live['dm']), strs(live['index']), strs(live.get('KMixed', [])), strs(live.get('KFloat', [])),
-            strs(live.get('KInt', [])), orig_lit, strs(dm_keys), strs(index_keys), L.lst(strs(ks) for ks in col_keys),
-            orig_lit, rest_lit)
+            strs(live.get('KInt', [])), strs(live.get('KSer', [])), orig_lit, strs(dm_keys), strs(index_keys),
+            L.lst(strs(ks) for ks in col_keys), orig_lit, rest_lit, ' && '.join(idchecks))
         if orig_problems:          # the dump of a malformed original is lossy: outside the L1 model
-            model = 'true'
+            model = '(%s)' % ' && '.join(idchecks)
         inp2 = dict(inp)
         inp2['follow'] = follow
+        inp2['post'] = post
         inp2.pop('nfollow', None)
-        kinds = sorted(set(kd for _n, kd in histgen.col_kinds(dm) if kd))
+        inp2.pop('npost', None)
         return {
             'input': inp2,
             'observed': {'rows': len(dm), 'columns': list(dm._cols.keys()), 'follow_outcomes': outcomes,
                          'restored_id_differs': rest._id != dm._id, 'problems': problems[:4],
-                         'original_malformed': orig_problems[:2]},
+                         'original_malformed': orig_problems[:2], 'twins': twin_kinds},
             'pyfail': pyfail, 'oracle': oracle, 'model': model,
             'nontrivial': len(dm) > 0 and len(dm._cols) > 0 and ok_ops > 0,
             'sig': json.dumps(inp2, sort_keys=True, default=str),
-            'tags': ['pickle', 'mode-' + inp['mode'], 'warm%d' % inp.get('warm', 0), 'deco' if inp.get('deco') else 'plain', 'rows%d' % min(len(dm), 9)] + kinds
-                    + ['follow-' + o['op'] for o in follow] + (['orig-malformed'] if orig_problems else []),
+            'tags': ['pickle', 'mode-' + mode, 'warm%d' % inp.get('warm', 0), 'deco' if inp.get('deco') else 'plain',
+                     'rows%d' % min(len(dm), 9)] + self._tags(dm, inp) + ['follow-' + o['op'] for o in follow]
+                    + ['before-' + kd for kd in inp.get('before') or []] + ['after-' + kd for kd in inp.get('after') or []]
+                    + (['orig-malformed'] if orig_problems else []),
         }
+
+    def _tags(self, dm, inp):
+        kinds = sorted(set(kd for _n, kd in histgen.col_kinds(dm) if kd))
+        for col in dm._cols.values():
+            if is_series(col):
+                kinds.append('series-depth%d' % col.depth)
+        return kinds + ['post-' + o['op'] for o in inp.get('post') or []] + (['foreign-pickle'] if inp.get('foreign') else [])
 
     def _fail_case(self, inp, why, tags):
         return {'input': inp, 'observed': why, 'pyfail': why, 'oracle': 'true', 'model': 'true', 'nontrivial': True,
@@ -334,29 +702,39 @@ class C17:
 
     def run_json(self, inp):
         from datamatrix import convert as cnv
-        r = build_pool(inp['ops'], inp['seed'])
-        t = inp['t']
-        dm = r.pool[t]
-        decorate(dm, inp.get('deco', 0))
-        warm(dm, inp.get('warm', 0))
+        r, t, dm, post = self.setup(inp)
         used = sorted(set(r.fam(x) for x in r.pool))
         problems = []
         orig_problems = []
-        orig_lit = r.dump_table(dm, orig_problems)
+        idchecks = []
+        orig_lit = dump_x(r, dm, orig_problems)
         r.probes(dm, orig_problems)
         try:
             s = cnv.to_json(dm)
             rest = cnv.from_json(s)
+            fresh = self._fresh_like(dm, idchecks)          # the construction that follows from_json
+            rest2 = cnv.from_json(s)
         except Exception as e:      # noqa: BLE001
             return self._fail_case(inp, 'JSON round trip raised %r' % (e,), ['json'])
-        if not isinstance(s, str) or not isinstance(rest, world.DataMatrix):
+        if not isinstance(s, str) or not isinstance(rest, world.DataMatrix) or not isinstance(rest2, world.DataMatrix):
             return self._fail_case(inp, 'JSON round trip returned %s / %s' % (type(s).__name__, type(rest).__name__), ['json'])
         pyfail = None
         self._stage = 'from_json'
-        if r.dump_table(dm, []) != orig_lit:
+        roots = [r.fam(rest), r.fam(fresh), r.fam(rest2)]
+        if dump_x(r, dm, []) != orig_lit:
             pyfail = 'to_json changed the original object'
-        rest_lit = r.dump_table(rest, problems)
+        rest_lit = dump_x(r, rest, problems)
         r.probes(rest, problems)
+        if dump_x(r, rest2, []) != rest_lit.replace('x_fam := %s' % L.nat(r.fam(rest)), 'x_fam := %s' % L.nat(r.fam(rest2)), 1):
+            pyfail = pyfail or 'reading the same JSON text twice gives different tables'
+        self._mirror(fresh, dm)
+        for other, what in ((fresh, 'a table constructed right after from_json'), (rest2, 'a second from_json of the text')):
+            oa, ob = rel_obs(dm, other), rel_obs(rest, other)
+            if oa != ob:
+                pyfail = pyfail or 'using %s with the original gives %r, with the from_json table %r' % (what, oa, ob)
+        oa, ob = own_obs(dm), own_obs(rest)
+        if oa != ob:
+            pyfail = pyfail or 'own selections of the original give %r, of the from_json table %r' % (oa, ob)
         doc = doc_lit(s)
         if doc is None:
             pyfail = pyfail or 'JSON text is not an object with the keys rowid, columns'
@@ -377,51 +755,63 @@ class C17:
             out, new = r.apply({'op': 'getrows', 't': c, 'l': pert['l']}, seed=1)
             if new:
                 target = len(r.pool) - 1
+        elif pert['k'] == 'sample':
+            try:
+                r.pool[c][pert['name']][pert['i'], pert['j']] = float.fromhex(pert['v'])
+            except Exception:       # noqa: BLE001  (the copy lost the column, index out of range after shrinking)
+                pass
+        elif pert['k'] == 'depth':
+            try:
+                r.pool[c][pert['name']].depth = pert['d']
+            except Exception:       # noqa: BLE001
+                pass
         try:
             s2 = cnv.to_json(r.pool[target])
             same_text = (s2 == s)
-            b_lit = r.dump_table(r.pool[target], [])
+            b_lit = dump_x(r, r.pool[target], [])
         except Exception as e:      # noqa: BLE001
             pyfail = pyfail or 'to_json of the perturbed copy raised %r' % (e,)
             same_text = False
         problems = [p for p in problems if p not in orig_problems]
         if problems and not pyfail:
             pyfail = 'python-side probes: ' + '; '.join(problems[:3])
-        oracle = '(json_case %s %s %s && text_case %s %s %s)' % (nats(used), orig_lit, rest_lit, orig_lit, b_lit,
-                                                                   L.boolean(same_text))
-        model = '(m_json_doc %s %s && m_from_json %s %s && m_text %s %s %s)' % (
-            orig_lit, doc, orig_lit, rest_lit, orig_lit, b_lit, L.boolean(same_text))
+        oracle = '(xjson_case %s %s %s && xtext_case %s %s %s && fresh_roots %s %s)' % (
+            nats(used), orig_lit, rest_lit, orig_lit, b_lit, L.boolean(same_text), nats(used), nats(roots))
+        model = '(m_xjson_doc %s %s && m_xfrom_json %s %s && m_xtext %s %s %s && %s)' % (
+            orig_lit, doc, orig_lit, rest_lit, orig_lit, b_lit, L.boolean(same_text), ' && '.join(idchecks))
         if orig_problems:
-            model = 'true'
-        kinds = sorted(set(kd for _n, kd in histgen.col_kinds(dm) if kd))
+            model = '(%s)' % ' && '.join(idchecks)
+        inp2 = dict(inp, post=post)
+        inp2.pop('npost', None)
         return {
-            'input': inp, 'observed': {'text': s[:400], 'original_malformed': orig_problems[:2], 'same_text_after_perturbation': same_text, 'rows': len(dm)},
+            'input': inp2, 'observed': {'text': s[:400], 'original_malformed': orig_problems[:2],
+                                        'same_text_after_perturbation': same_text, 'rows': len(dm)},
             'pyfail': pyfail, 'oracle': oracle, 'model': model,
             'nontrivial': len(dm) > 0 and len(dm._cols) > 0 and (pert['k'] == 'none' or not same_text),
-            'sig': json.dumps(inp, sort_keys=True, default=str),
-            'tags': ['json', 'perturb-' + pert['k'], 'deco' if inp.get('deco') else 'plain', 'rows%d' % min(len(dm), 9)] + kinds
-                    + (['text-differs'] if not same_text else ['text-equal']) + (['orig-malformed'] if orig_problems else []),
+            'sig': json.dumps(inp2, sort_keys=True, default=str),
+            'tags': ['json', 'perturb-' + pert['k'], 'deco' if inp.get('deco') else 'plain', 'rows%d' % min(len(dm), 9)]
+                    + self._tags(dm, inp) + (['text-differs'] if not same_text else ['text-equal'])
+                    + (['orig-malformed'] if orig_problems else []),
         }
 
     def run_pandas(self, inp):
         from datamatrix import convert as cnv
         import pandas as pd
-        r = build_pool(inp['ops'], inp['seed'])
-        dm = r.pool[inp['t']]
-        decorate(dm, inp.get('deco', 0))
+        r, t, dm, post = self.setup(inp)
         problems = []
-        orig_lit = r.dump_table(dm, problems)
+        orig_lit = dump_x(r, dm, problems)
         try:
             df = cnv.to_pandas(dm)
         except Exception as e:      # noqa: BLE001
             return self._fail_case(inp, 'to_pandas raised %r' % (e,), ['pandas'])
         if not isinstance(df, pd.DataFrame):
             return self._fail_case(inp, 'to_pandas returned a %s' % type(df).__name__, ['pandas'])
+        self._stage = 'to_pandas'
         pyfail = None
         frame = []
         for j, name in enumerate(df.columns):
             vals = list(df.iloc[:, j])
-            frame.append('(%s, %s)' % (L.string(str(name)), L.lst(pcell(x) for x in vals)))
+            frame.append('(%s, %s)' % (L.string(str(name)), L.lst(xpcell(x) for x in vals)))
         if len(dm._cols) and len(df) != len(dm):
             pyfail = 'DataFrame has %d rows, the DataMatrix %d' % (len(df), len(dm))
         series = []
@@ -434,78 +824,23 @@ class C17:
             if not isinstance(ser, pd.Series):
                 pyfail = pyfail or 'to_pandas(column) returned a %s' % type(ser).__name__
                 continue
-            series.append('(%s, %s)' % (L.string(name), L.lst(pcell(x) for x in list(ser))))
-        if r.dump_table(dm, []) != orig_lit:
+            series.append('(%s, %s)' % (L.string(name), L.lst(xpcell(x) for x in list(ser))))
+        if dump_x(r, dm, []) != orig_lit:
             pyfail = pyfail or 'to_pandas changed the original object'
-        kinds = sorted(set(kd for _n, kd in histgen.col_kinds(dm) if kd))
+        inp2 = dict(inp, post=post)
+        inp2.pop('npost', None)
         return {
-            'input': inp, 'observed': {'columns': [str(c) for c in df.columns], 'rows': len(df),
-                                       'dtypes': [str(x) for x in df.dtypes]},
+            'input': inp2, 'observed': {'columns': [str(c) for c in df.columns], 'rows': len(df),
+                                        'dtypes': [str(x) for x in df.dtypes],
+                                        'first_row': [repr(x)[:60] for x in (list(df.iloc[0]) if len(df) else [])]},
             'pyfail': pyfail,
             # a malformed original (e.g. an IntColumn holding float64 data) is dumped lossily: cannot be judged
-            'oracle': 'true' if problems else '(pandas_case %s %s %s)' % (orig_lit, L.lst(frame), L.lst(series)),
-            'model': 'true' if problems else '(m_pandas %s %s)' % (orig_lit, L.lst(frame)),
+            'oracle': 'true' if problems else '(xpandas_case %s %s %s)' % (orig_lit, L.lst(frame), L.lst(series)),
+            'model': 'true' if problems else '(m_xpandas %s %s %s)' % (orig_lit, L.lst(frame), L.lst(series)),
             'nontrivial': len(dm) > 0 and len(dm._cols) > 0,
-            'sig': json.dumps(inp, sort_keys=True, default=str),
-            'tags': ['pandas', 'rows%d' % min(len(dm), 9)] + kinds + (['orig-malformed'] if problems else []),
+            'sig': json.dumps(inp2, sort_keys=True, default=str),
+            'tags': ['pandas', 'rows%d' % min(len(dm), 9)] + self._tags(dm, inp) + (['orig-malformed'] if problems else []),
         }
-
-    def run_series(self, inp):
-        """Python-side only: `ltable` has no series kind."""
-        from datamatrix import convert as cnv, SeriesColumn
-        r = build_pool(inp['ops'], inp['seed'])
-        dm = r.pool[inp['t']]
-        decorate(dm, inp.get('deco', 0))
-        rng = random.Random(inp.get('fseed', 0))
-        depth = inp.get('depth', 3)
-        pool_vals = [0.0, 1.0, -2.5, float('nan'), 1e10, 0.5]
-        with warnings.catch_warnings():
-            warnings.simplefilter('ignore')
-            dm['ser'] = SeriesColumn(depth=depth)
-            for i in range(len(dm)):
-                dm['ser'][i] = [rng.choice(pool_vals) for _ in range(depth)]
-            why = None
-
-            def same(a, b, what, ids_from_zero):
-                if list(a._cols.keys()) != list(b._cols.keys()) and sorted(a._cols) != sorted(b._cols):
-                    return '%s: column names %r vs %r' % (what, list(a._cols), list(b._cols))
-                ida, idb = [int(x) for x in a._rowid], [int(x) for x in b._rowid]
-                if (list(range(len(ida))) if ids_from_zero else ida) != idb:
-                    return '%s: row ids %r vs %r' % (what, ida, idb)
-                for name, col in a._cols.items():
-                    oc = b._cols[name]
-                    if type(col) is not type(oc):
-                        return '%s: column %s has type %s vs %s' % (what, name, type(col).__name__, type(oc).__name__)
-                    if oc._datamatrix is not b:
-                        return '%s: column %s does not belong to the restored table' % (what, name)
-                    if hasattr(col, 'depth'):
-                        if col.depth != oc.depth or not np.array_equal(np.asarray(col._seq, dtype=float),
-                                                                       np.asarray(oc._seq, dtype=float), equal_nan=True):
-                            return '%s: series column %s differs' % (what, name)
-                        if [int(x) for x in oc._rowid] != idb:
-                            return '%s: series column %s has other row ids than its table' % (what, name)
-                    elif [pyobs.val(x) if not isinstance(x, np.generic) else pyobs.val(x.item()) for x in col] != \
-                            [pyobs.val(x) if not isinstance(x, np.generic) else pyobs.val(x.item()) for x in oc]:
-                        return '%s: column %s differs' % (what, name)
-                return None
-            try:
-                rest = do_pickle(dm, inp['mode'], tag=1)
-                why = same(dm, rest, 'pickle ' + inp['mode'], False)
-                if why is None and rest._id == dm._id:
-                    why = 'restored table has the family of the original'
-                if why is None:
-                    n = len(dm)
-                    dm.length = n + 2
-                    rest.length = n + 2
-                    why = same(dm, rest, 'after growing both', False)
-                if why is None:
-                    back = cnv.from_json(cnv.to_json(dm))
-                    why = same(dm, back, 'json', True)
-            except Exception as e:      # noqa: BLE001
-                why = 'series round trip raised %r' % (e,)
-        return {'input': inp, 'observed': {'rows': len(dm), 'depth': depth, 'problem': why}, 'pyfail': why,
-                'oracle': 'true', 'model': 'true', 'nontrivial': len(dm) > 0,
-                'sig': json.dumps(inp, sort_keys=True, default=str), 'tags': ['series-python-side', 'mode-' + inp['mode']]}
 
     # ------------------------------------------------------------ protocol
     def rerun(self, inp):
@@ -518,9 +853,7 @@ class C17:
                     return self.run_pickle(inp)
                 if kind == 'json':
                     return self.run_json(inp)
-                if kind == 'pandas':
-                    return self.run_pandas(inp)
-                return self.run_series(inp)
+                return self.run_pandas(inp)
             except Exception as e:      # noqa: BLE001
                 if self._stage == 'setup':
                     raise               # the input itself is unusable (e.g. a shrunk history without table t)
@@ -532,10 +865,27 @@ class C17:
             finally:
                 shutil.rmtree(os.path.join(fw.WORK, 'c17-files-%d' % os.getpid()), ignore_errors=True)
 
-    def gen_perturb(self, rng, dm):
+    def gen_series(self, rng, big_ok=True):
+        """0, 1 or 2 series columns"""
+        if rng.random() >= 0.4:
+            return [], 0
+        out = []
+        for name in (['s'] if rng.random() < 0.75 else ['s', 'w']):
+            d = rng.choice(DEPTHS if big_ok else DEPTHS[:-1])
+            out.append({'name': name, 'depth': d, 'dnan': rng.random() < 0.7, 'fseed': rng.randrange(1 << 30),
+                        'style': rng.choice(['mixed', 'mixed', 'ramp', 'nan'])})
+        return out, rng.randint(0, 3)
+
+    def gen_perturb(self, rng, dm, sers):
         n = len(dm)
         cols = [(nm, kd) for nm, kd in histgen.col_kinds(dm) if kd]
         c = rng.random()
+        if sers and c < 0.45:
+            sp = rng.choice(sers)
+            if rng.random() < 0.3:
+                return {'k': 'depth', 'name': sp['name'], 'd': sp['depth'] + rng.choice([1, -1] if sp['depth'] > 1 else [1])}
+            return {'k': 'sample', 'name': sp['name'], 'i': rng.randrange(max(n, 1)), 'j': rng.randrange(sp['depth']),
+                    'v': float(rng.choice([7.5, float('nan'), float('inf'), -1.0, 0.0])).hex()}
         if c < 0.4 and cols and n:
             name, kind = rng.choice(cols)
             return {'k': 'cell', 'name': name, 'i': rng.randrange(n), 'v': pyobs.enc(histgen.pick_value(rng, kind, 0))}
@@ -566,22 +916,37 @@ class C17:
 
             def deco():
                 return sub.randint(1, 3) if sub.random() < 0.4 else 0
+
+            def ser(big_ok=True):
+                sers, npost = self.gen_series(sub, big_ok)
+                return {'series': sers, 'npost': npost, 'pseed': sub.randrange(1 << 30)} if sers else {}
             order = list(range(npool))
             sub.shuffle(order)
             for t in order[:4]:
                 mode = MODES[mi % len(MODES)]
                 mi += 1
+                before = [sub.choice(TWINS_BEFORE)] if sub.random() < 0.5 else []
+                after = [sub.choice(TWINS_AFTER) for _ in range(sub.choice([0, 1, 1, 2, 2, 3]))]
                 cases.append(self.rerun(dict(base, kind='pickle', t=t, mode=mode, warm=sub.randint(0, 2), deco=deco(),
-                                             fseed=sub.randrange(1 << 30), nfollow=sub.randint(1, 4))))
+                                             fseed=sub.randrange(1 << 30), nfollow=sub.randint(1, 4),
+                                             before=before, after=after, foreign=sub.random() < 0.15,
+                                             **ser(big_ok=sub.random() < 0.3))))
             for t in order[:2]:
-                dm = r.pool[t]
+                extra = ser()
+                # the perturbation is chosen on the table as it is before the post-operations; a stale row index
+                # only means that the copy stays unperturbed
                 cases.append(self.rerun(dict(base, kind='json', t=t, warm=sub.randint(0, 2), deco=deco(),
-                                             perturb=self.gen_perturb(sub, dm))))
+                                             foreign=sub.random() < 0.35,
+                                             perturb=self.gen_perturb(sub, r.pool[t], extra.get('series')), **extra)))
             t = order[-1]
-            cases.append(self.rerun(dict(base, kind='pandas', t=t, deco=deco())))
+            cases.append(self.rerun(dict(base, kind='pandas', t=t, deco=deco(), foreign=sub.random() < 0.2, **ser())))
             if h % 2 == 0:
-                cases.append(self.rerun(dict(base, kind='series', t=order[0], mode=MODES[(mi + 3) % len(MODES)], deco=deco(),
-                                             fseed=sub.randrange(1 << 30), depth=sub.randint(1, 4))))
+                # a table that certainly has a deep series column
+                d = [5, 8, 50, 6][(h // 2) % 4]
+                cases.append(self.rerun(dict(base, kind='pandas', t=order[0], deco=0, pseed=sub.randrange(1 << 30),
+                                             npost=sub.randint(0, 2),
+                                             series=[{'name': 's', 'depth': d, 'dnan': True, 'fseed': sub.randrange(1 << 30),
+                                                      'style': sub.choice(['mixed', 'ramp'])}])))
         return cases
 
     def shrink_candidates(self, inp):
@@ -591,6 +956,19 @@ class C17:
             f = inp['follow']
             for i in range(len(f) - 1, -1, -1):
                 yield dict(inp, follow=f[:i] + f[i + 1:])
+        for key in ('after', 'before'):
+            l = inp.get(key) or []
+            for i in range(len(l) - 1, -1, -1):
+                yield dict(inp, **{key: l[:i] + l[i + 1:]})
+        if inp.get('post'):
+            p = inp['post']
+            for i in range(len(p) - 1, -1, -1):
+                yield dict(inp, post=p[:i] + p[i + 1:])
+        sers = inp.get('series') or []
+        for i in range(len(sers) - 1, -1, -1):
+            yield dict(inp, series=sers[:i] + sers[i + 1:])
+        if inp.get('foreign'):
+            yield dict(inp, foreign=False)
         if inp.get('warm'):
             yield dict(inp, warm=0)
         if inp.get('deco'):
@@ -610,15 +988,13 @@ class C17:
     def key(self, case):
         inp = case['input']
         k = inp.get('kind', '?')
+        s = ' series' if inp.get('series') else ''
         if k == 'pickle':
-            return 'pickle %s follow %s' % (inp.get('mode'), ' '.join(o['op'] for o in inp.get('follow') or []))
+            return 'pickle%s %s after %s follow %s' % (s, inp.get('mode'), ','.join(inp.get('after') or []),
+                                                       ' '.join(o['op'] for o in inp.get('follow') or []))
         if k == 'json':
-            return 'json perturb %s' % (inp.get('perturb') or {}).get('k')
-        return k
-
-
-def nats(l):
-    return L.lst(L.nat(x) for x in l)
+            return 'json%s perturb %s' % (s, (inp.get('perturb') or {}).get('k'))
+        return k + s
 
 
 PROP = C17()
